@@ -6,5 +6,7 @@ dp = VerusUnit("c01_dispatch", "c01_dispatch", rlimit=60)
 UNITS = [al, dp]
 EXPLANATION = ("run_a_star + advance_search under contract: 'no path' is produced only by an exhausted queue with a target, and then (invariant EXP) the "
                "labelled set is closed under every edge the frontier model permitted and does not contain the target; a returned tree contains the target; "
-               "without a target the search returns only at queue exhaustion with the closed labelled set")
-NOT_DECIDED = "least cost of each label in the destination-less tree (optimality, C02); wall-clock needed to exhaust the queue"
+               "without a target the search returns only at queue exhaustion with the closed labelled set; "
+               "the whole 'only if' argument as lemmas (induction on the path): with an exhausted queue every vertex that a permitted path from the source reaches is labelled, hence when 'no path' is reported NO permitted path from "
+               "the source ends at the target (edge-local frontier models); SearchAlgorithm::run_vertex_oriented reports 'no path' only as run_a_star does (unit c01_dispatch)")
+NOT_DECIDED = "frontier models whose verdict depends on the state or the previous edge (turn restrictions): the closure lemma is stated for edge-local models; least cost of each label in the destination-less tree (optimality, C02); wall-clock needed to exhaust the queue"
